@@ -48,9 +48,11 @@ def _check_investigation_class(max_changes, times_alphabet):
         n += 1
         hist = {u: (list(single[c][0]), list(single[c][1])) for u, c in zip(G.nodes(), combo)}
         sim = EoN.Simulation_Investigation(G, {u: (list(h[0]), list(h[1])) for u, h in hist.items()}, transmissions=[], possible_statuses=statuses)
-        for nodelist in (None, [0, 2], [1]):
-            t, D = sim.summary(nodelist) if nodelist is not None else sim.summary()
-            nodes = list(G.nodes()) if nodelist is None else nodelist
+        for nodelist in (None, [0, 2], [1], 'iterator', 'neighbors', 'set', 'tuple'):
+            subset = {'iterator': [2, 0], 'neighbors': [0, 2], 'set': [1, 2], 'tuple': [0, 1]}.get(nodelist, nodelist) if isinstance(nodelist, str) else nodelist
+            arg = {'iterator': iter([2, 0]), 'neighbors': G.neighbors(1), 'set': {1, 2}, 'tuple': (0, 1)}.get(nodelist) if isinstance(nodelist, str) else nodelist
+            t, D = sim.summary(arg) if nodelist is not None else sim.summary()
+            nodes = list(G.nodes()) if nodelist is None else subset
             want_t = sorted({x for u in nodes for x in hist[u][0]})
             if [float(x) for x in t] != [float(x) for x in want_t]:
                 return n, dict(histories=hist, nodelist=nodelist, observed='summary times %s, expected %s' % (list(t), want_t))
